@@ -281,7 +281,7 @@ theorem mju_subQuat_eq (a0 a1 a2 a3 b0 b1 b2 b3 : ℝ) :
        mju_quat2Vel d.1 d.2.1 d.2.2.1 d.2.2.2 (1 : ℝ)) := by
   simp only [mju_subQuat, mju_quat2Vel, mju_mulQuat, mju_normalize3, real_ofInt]
   push_cast
-  rfl
+  first | rfl | (ring_nf; done)
 
 theorem unit3_of_div (a b c n : ℝ) (hn : 0 < n) (hsq : n * n = a*a + b*b + c*c) :
     a / n * (a / n) + b / n * (b / n) + c / n * (c / n) = 1 := by
